@@ -15,6 +15,9 @@ CHECKS = {
  "C03": dict(level=MC, technique="TLA+ model of contact modifiers (Contact.tla) checked by TLC; all (contact, modifier) cases replayed on modifiers.Apply and through the corresponding flow actions; recorded before/events/after validated by TLC with an independent ApplyEvents (ContactTrace.tla)",
    text="Contact.tla models every modifier, group re-evaluation and the events they emit; TLC checks Announced / ModifiedIff / SecondNoop on the model and enumerates the whole (contact x modifier) domain. Each case is applied twice to a real flows.Contact and also executed as a flow (action before and after a wait, manual and msg trigger); TLC folds the recorded events over the recorded before-contact with its own ApplyEvents and compares with the after-contact, for these and for every sprint of the runner fixtures (incl. off-script resumes).",
    note="Trusted: JSON projection of contacts/events (harness/contact.go). Symbolic domains around MaxFieldChars=4; location-typed fields only via fixtures.", ref="4 C03"),
+ "C04": dict(level="exploration", technique="TLA+ call/return protocol (TotalTrace.tla) validated by TLC over a systematic boundary sweep of every registered function, router test and operator and random templates, each call under recover() and a watchdog",
+   text="Totality is a claim about code TLC never sees, so the level is exploration: the harness calls every entry of the live registries functions.XFUNCTIONS and cases.XTESTS at arities 0..5 with all singles and pairs (and reduced triples) of a 36-value boundary pool (0, +-1, +-2^31, 10^9, 10^30, empty/long/unicode text, null, error, nested arrays/objects, dates, functions), every operator on every pair through the evaluator, and random templates; TLC accepts a recorded call iff it is Call -> Return(kind in Kinds), rejects panics, non-object test results and timeouts whose a-priori result size is small (scope rule of the property).",
+   note="Trusted: watchdog (2s/10s) and the result-size estimate; inputs outside the pool are not covered. New registry entries are swept automatically.", ref="4 C04"),
  "C05": dict(level=MC, technique="TLA+ model (Engine.tla: StepBound, ResumeBound, LimitFails, liveness Terminates under WF) + replay with watchdog + trace validation (EngineTrace.tla)",
    text="TLC proves within bounds that every sprint of the specification terminates (liveness, no state constraint), visits at most MaxSteps nodes and that at most MaxResumes resumes are accepted, for several option values; the exported behaviours are replayed on a real engine built with the same option values and the bounds are evaluated by TLC on every recorded call, together with fixtures run under small random limits.",
    note="Trusted: harness projection and watchdog; option values 1..5 / 0..3; text-length limits are covered by the Limits part of the check.", ref="4 C05"),
